@@ -31,6 +31,7 @@ type scenario struct {
 	Send        jmap
 	Faults      []int
 	Tags        map[string]bool // features present, for the coverage statistics
+	NoReplay    bool            // Go map iteration order can show: judged by the set-level checkers only
 }
 
 type runResult struct {
@@ -336,9 +337,9 @@ func (e *emitter) run(sc *scenario, res *runResult) string {
 	for i, x := range res.Trace {
 		tr[i] = e.entry(x)
 	}
-	return fmt.Sprintf("{| u_family := %s; u_cfg := %s; u_entry := %s;\n   u_req := {| r_method := %s; r_content_type := %s; r_accept := %s; r_body := %s; r_id := %s |};\n   u_send := %s;\n   u_trace := [%s];\n   u_handled := %s; u_result := %s |}",
+	return fmt.Sprintf("{| u_family := %s; u_cfg := %s; u_entry := %s;\n   u_req := {| r_method := %s; r_content_type := %s; r_accept := %s; r_body := %s; r_id := %s |};\n   u_send := %s;\n   u_trace := [%s];\n   u_handled := %s; u_result := %s; u_replay := %s |}",
 		e.str(sc.Family), e.cfg(sc.Cfg), coqStr(sc.Entry), coqStr(sc.Method), e.str(sc.ContentType), e.str(sc.Accept), body, e.str("https://"+host+sc.Path),
-		send, strings.Join(tr, ";\n     "), coqBool(res.Handled), coqStr(res.Result))
+		send, strings.Join(tr, ";\n     "), coqBool(res.Handled), coqStr(res.Result), coqBool(!sc.NoReplay))
 }
 
 func (e *emitter) file(runs []string) string {
